@@ -252,6 +252,11 @@ def run_case(case):
                         except Exception as e:  # pylint: disable=broad-except
                             look[c] = 'raised:%s' % type(e).__name__
                     out['look'] = look
+                    # the requester's own (documented) view of what is usable
+                    out['usable'] = dict((str(k), (v_[0], str(v_[1])))
+                                         for k, v_ in assoc.sop_classes_as_scu.items())
+                    out['usable_ids'] = dict((k, (str(c_.sop_class), str(c_.supported_ts)))
+                                             for k, c_ in assoc.accepted_contexts.items())
             except Exception as e:  # pylint: disable=broad-except
                 out['exc'] = e
         t = world.spawn(user, 'user')
@@ -409,6 +414,22 @@ def run_case(case):
             for pcid, r, t_ in res:
                 if r == 0:
                     acc.setdefault(ab_of[pcid], []).append((pcid, t_))
+            if 'usable' in out:
+                # exactly the contexts the peer accepted, each bound to the syntax it chose
+                # (classes are unique per request, so class <-> context is one to one)
+                want_ids = dict((pcid, (ab_of[pcid], t_)) for pcid, r, t_ in res if r == 0)
+                if out['usable_ids'] != want_ids:
+                    v('usable-contexts-differ-from-accepted view=accepted_contexts',
+                      'peer accepted %r; requester holds %r' % (
+                          sorted(want_ids.items())[:6], sorted(out['usable_ids'].items())[:6]))
+                want_cls = dict((ab, (pcid, t_)) for pcid, (ab, t_) in want_ids.items())
+                if out['usable'] != want_cls:
+                    miss = sorted(set(want_cls) - set(out['usable']))
+                    extra = sorted(set(out['usable']) - set(want_cls))
+                    v('usable-contexts-differ-from-accepted view=sop_classes_as_scu '
+                      'missing=%s extra=%s' % (bool(miss), bool(extra)),
+                      'accepted by the peer but not usable: %r; usable but not accepted: %r'
+                      % (miss[:5], extra[:5]))
             for c, got in out['look'].items():
                 want_ok = c in acc and c in as_scu
                 if want_ok:
